@@ -135,12 +135,13 @@ pub fn teardown_oracle(case: &Case, run: &RunResult, fault: usize, b_knows: bool
     // 4. local drop on a healthy link: everything queued before is transmitted, in order, before Close
     if fault == 8 {
         let sent: Vec<&WMsg> = run.events.iter().filter_map(|e| if let Ev::Sent { side: 0, msg, lost } = &e.ev { if *lost { None } else { Some(msg) } } else { None }).collect();
-        let recvd: Vec<&WMsg> = run.events.iter().filter_map(|e| if let Ev::Recv { side: 1, msg } = &e.ev { Some(msg) } else { None }).collect();
+        // (Pong messages are produced by the simulated WebSocket layer itself in answer to a Ping, not by the endpoint)
+        let recvd: Vec<&WMsg> = run.events.iter().filter_map(|e| if let Ev::Recv { side: 1, msg } = &e.ev { Some(msg) } else { None }).filter(|m| !matches!(m, WMsg::Pong)).collect();
         if sent.last() != Some(&&WMsg::Close) {
             return Err(("c08-drop-no-close".into(), format!("after dropping the Multiplexor the last message on the wire is {:?}, not Close", sent.last().map(|m| m.short()))));
         }
         if sent != recvd {
-            return Err(("c08-drop-not-delivered".into(), format!("messages sent by the dropped side ({}) and received by the peer ({}) differ", sent.len(), recvd.len())));
+            return Err(("c08-drop-not-delivered".into(), format!("messages sent by the dropped side ({}) and received by the peer ({}) differ: sent [{}], received [{}]", sent.len(), recvd.len(), sent.iter().map(|m| m.short()).collect::<Vec<_>>().join(", "), recvd.iter().map(|m| m.short()).collect::<Vec<_>>().join(", "))));
         }
         for (i, s) in a.streams.iter().enumerate() {
             let Some(id) = s.flow_id else { continue };
@@ -186,9 +187,9 @@ fn c08_base() -> impl Strategy<Value = Case> {
         0usize..3,
         prop::collection::vec((0usize..2, any::<bool>(), 0u8..3), 0..3),
         prop::sample::select(vec![BindAnswer::Accept, BindAnswer::Hold, BindAnswer::Reject, BindAnswer::Hold]),
-        schedule(60),
+        (schedule(60), prop::collection::vec(0u32..80, 0..4), prop::sample::select(vec![[false, false], [true, false], [true, true], [false, false]])),
     )
-        .prop_map(|(mut o0, mut o1, c0, c1, r0, r1, streams, ndg, binds, ans, schedule)| {
+        .prop_map(|(mut o0, mut o1, c0, c1, r0, r1, streams, ndg, binds, ans, (schedule, ticks, keepalive))| {
             o0.retries = r0;
             o1.retries = r1;
             o0.bind_buf = 2;
@@ -205,6 +206,9 @@ fn c08_base() -> impl Strategy<Value = Case> {
                 binds,
                 bind_policy: [bp.clone(), bp],
                 schedule,
+                // keepalive: Ping messages share the outbound queue with frames (the drain after a drop must pass them)
+                keepalive,
+                events: if keepalive.iter().any(|k| *k) { ticks.into_iter().map(|at| RawEvent { when: Trigger::FromStep(at), what: What::Tick }).collect() } else { vec![] },
                 ..Case::default()
             }
         })
@@ -239,6 +243,9 @@ pub fn run_c08(c: &C08Case) -> Outcome {
     for (k, f) in plan {
         let (events, b_knows) = fault_events(f, k);
         let mut case = c.base.clone();
+        // the fault's events first (their AfterEvent indices stay valid), then the base's own events (pings)
+        let mut events = events;
+        events.extend(c.base.events.iter().cloned());
         case.events = events;
         let run = run_case(&case);
         FAULT_RUNS.fetch_add(1, Ordering::Relaxed);
